@@ -332,7 +332,7 @@ def exec_script(ctx, comp, script, tag, want_model=True, race=False, env=None, t
     pos = 0
     rounds = 0
     cases = split_cases(script)
-    while pos < len(script) and rounds < 50:
+    while pos < len(script) and rounds < 200:
         rounds += 1
         part = os.path.join(ctx.work, '%s.part%d.script' % (tag, rounds))
         with open(part, 'w') as fh:
@@ -349,6 +349,14 @@ def exec_script(ctx, comp, script, tag, want_model=True, race=False, env=None, t
         # crashed / hung inside the case containing line pos+len(got)
         bad = pos + len(got)
         c = next(((a, b) for a, b in cases if a <= bad < b), (bad, len(script)))
+        if rc == 124 and c[0] > pos:
+            # the time limit of the whole process ran out while it was making progress (a long script on a loaded machine):
+            # not a hang of this case. Start again at the interrupted case with a fresh limit; only a case that uses up the
+            # whole limit on its own is reported as hung.
+            for j in range(c[0], len(script)):
+                impl[j] = None
+            pos = c[0]
+            continue
         crashes.append(dict(case=c, rc=rc, stderr=(err or '')[-1500:], line=script[bad] if bad < len(script) else ''))
         for j in range(bad, c[1]):
             impl[j] = 'CRASH rc=%s' % rc if j == bad else 'CRASH-skipped'
